@@ -272,7 +272,8 @@ def ob_perturb(ctx):
             ('file', B.changes[0].files[0]), ('file.meta', B.changes[0].files[0].meta_section),
             ('file.diff', B.changes[0].files[0].diff_section)]
     path, sec = ctx.pick('section', secs)
-    what = ctx.pick('field', ['new-option', 'existing-option', 'content'])
+    what = ctx.pick('field', ['new-option', 'existing-option', 'remove-option', 'content'])
+    rkey = None
     if what == 'content':
         if not hasattr(sec, 'content'):
             return skip('container has no content')
@@ -295,6 +296,14 @@ def ob_perturb(ctx):
             cnd = lift(list(sec.options.keys())[-1]).eq_cond(k) if isinstance(k, str) else False
             if cnd is not False:
                 ctx.assume(neg(cnd))
+    elif what == 'remove-option':
+        # an option present on one tree and absent on the other -- whatever its value, including the value the class
+        # would default to (a file without '#diffx: encoding=' is not a UTF-8 file)
+        keys = sorted(sec.options.keys())
+        if not keys:
+            return skip('no option to remove')
+        rkey = ctx.pick('key', keys)
+        del sec.options[rkey]
     else:
         keys = [k for k in sec.options.keys() if isinstance(sec.options[k], str)]
         if not keys:
@@ -304,7 +313,7 @@ def ob_perturb(ctx):
         new = sym_str(ctx, 'nv', len(old), max_cp=0x7f)
         ctx.assume(neg(lift(new).eq_cond(old)))
         sec.options[k] = new
-    wit = lambda m: {'kind': 'perturb', 'section': path, 'field': what}
+    wit = lambda m: {'kind': 'perturb', 'section': path, 'field': what, 'key': rkey}
     try:
         eq = bool(d == B)
         ne = bool(d != B)
@@ -458,6 +467,10 @@ def _replay_perturb(w):
         sec._content = dict(old, extra=1) if isinstance(old, dict) else (old + old[:1] if old else None)
     elif w['field'] == 'new-option':
         sec.options['zz'] = 'v'
+    elif w['field'] == 'remove-option':
+        if w.get('key') not in sec.options:
+            return False
+        del sec.options[w['key']]
     else:
         ks = [k for k, v in sec.options.items() if isinstance(v, str)]
         if not ks:
